@@ -200,6 +200,8 @@ def enumerate_ops(src: str, *, nk=3, nks=2, forms=('src', 'ast', 'fst'), opts=({
             if 'par' in extra:
                 yield {'op': 'par', 'path': p, 'force': True}
             yield {'op': 'unpar', 'path': p}
+            if isinstance(child, (ast.Tuple, ast.MatchSequence)) and 'par' in extra:
+                yield {'op': 'unpar', 'path': p, 'node': True}  # also the sequence's own delimiters
     # list fields (also the empty ones)
     for path, node in O.iter_nodes(tree):
         p = [list(x) for x in path]
@@ -328,7 +330,7 @@ def apply(fst, root, op):
     if k == 'par':
         return n.par(op['force'])
     if k == 'unpar':
-        return n.unpar()
+        return n.unpar(node=True) if op.get('node') else n.unpar()
     if k == 'put_docstr':
         return n.put_docstr(op['text'], **o)
     if k == 'put_line_comment':
@@ -359,6 +361,8 @@ def op_id(op):
         parts.append(repr(op['text']))
     if 'force' in op:
         parts.append(f"force={op['force']}")
+    if op.get('node'):
+        parts.append('node=True')
     if op.get('opts'):
         parts.append(','.join(f'{k}={v!r}' for k, v in sorted(op['opts'].items())))
     return ' '.join(parts)
